@@ -15,6 +15,8 @@ Case = {'n': <clients>, 'ops': [...]}, ops (i = client index, host name of clien
   ['step', i]                    client i performs its next ZooKeeper call (no-op when idle)
   ['run', i]                     client i runs to completion
   ['expire', i, keep]            session expiry; keep=0: process restart (new service object)
+  ['reconnect', i]               session expiry between two calls of a method that carries on with a new session
+                                 (window stream: only correspondence + 'created nodes are ephemeral and own')
   ['envput', path, payload]      another client writes a persistent node (payload: '', 'hostN', ...)
   ['envdel', path]
 """
@@ -38,7 +40,11 @@ RULE = {
            'all cases start with the old-container/newer-container/expiry/clean-up skeleton), plus '
            'unregister_* (only while all clients are idle) / _unschedule calls run to completion and '
            'foreign persistent nodes (malformed stream: junk data squatting on presence paths, missing '
-           'parent directories, requests on busy clients, retries without cause); non-trivial = two clients '
+           'parent directories, requests on busy clients, retries without cause; 12 % of the cases carry the WINDOW '
+           'stream: session expiry between two calls of a method that carries on with a new session '
+           '(Op.reconnect, outside the histories of the theorems) on which only the model correspondence and the '
+           'clause "every node a request creates is ephemeral and owned by the session of the caller" are '
+           'checked); non-trivial = two clients '
            'registered containers of the same instance AND a create had to wait for a foreign node AND '
            'a delete request removed a node AND (a session expired OR a watch fired a retry); '
            'distinct = distinct op-list hash',
@@ -221,6 +227,27 @@ def gen_case(rng, pid, tier):
     for i in range(n):
         if rng.random() < 0.7:
             ops.append(['run', i])
+    if rng.random() < 0.12:
+        # WINDOW stream (outside the theorem's histories, inside the model's): the session of a client
+        # expires between two ZooKeeper calls of a method and the client library re-connects with a
+        # new session; the method carries on (Op.reconnect).  Only the correspondence and the
+        # 'every node a request creates is ephemeral and its own' clause are checked on these.
+        for _ in range(rng.randint(1, 3)):
+            at = rng.randrange(len(ops) + 1)
+            i = rng.randrange(n)
+            blk = []
+            if rng.random() < 0.7:
+                inst = rng.choice(list(cur))
+                mine = [m for m in made if m[0] == i and m[1] == inst]
+                u = (max(m[2] for m in mine) + 1) if mine and rng.random() < 0.7 else cur[inst]
+                blk.append(['create', i, inst, u, _gen_data(rng)] if rng.random() < 0.7 else
+                           ['delete', i, inst, u])
+                for _ in range(rng.randint(0, 4)):
+                    blk.append(['step', i])
+            blk.append(['reconnect', i])
+            if rng.random() < 0.7:
+                blk.append(['run', i])
+            ops[at:at] = blk
     return {'n': n, 'ops': ops}
 
 
@@ -335,8 +362,9 @@ def run_impl(case, pid):
         if kind == 'expire-delete' or req is None or client is admin:
             return
         site = req['site']
+        window = flags.get('window', False)
         if req['kind'] in ('create', 'delete'):
-            if kind in ('set', 'delete') and before.owner is not None and before.owner != client.session \
+            if not window and kind in ('set', 'delete') and before.owner is not None and before.owner != client.session \
                     and before.owner in server.live:
                 run.hits.append(fw.Hit(clause='foreign-touch', call_site=site,
                                        detail='%s of %s owned by session %s by session %s' % (
@@ -346,7 +374,7 @@ def run_impl(case, pid):
                                        detail='%s created with owner %r by session %s' % (
                                            path, after.owner, client.session)))
             if kind == 'delete' and req['kind'] == 'delete':
-                if owner_was != (proc.idx, req['rsrc']):
+                if owner_was != (proc.idx, req['rsrc']) and not window:
                     # registered for a container of ANOTHER INSTANCE (only identity-group paths are
                     # shared between instances) is reported under its own clause
                     other_inst = (owner_was is not None and
@@ -507,7 +535,7 @@ def run_impl(case, pid):
         emit('init %d' % n)
         for op in case['ops']:
             k = op[0]
-            if k in ('create', 'delete', 'retry', 'unreg', 'unsched', 'step', 'run', 'expire'):
+            if k in ('create', 'delete', 'retry', 'unreg', 'unsched', 'step', 'run', 'expire', 'reconnect'):
                 if not isinstance(op[1], int) or not 0 <= op[1] < n:
                     continue
                 proc = procs[op[1]]
@@ -591,6 +619,17 @@ def run_impl(case, pid):
                     _mk_service(proc, server, on_retry)      # the process restarted
                     proc.res = 'aborted' if was_busy else '-'
                 emit('expire %d %d' % (proc.idx, keep))
+            elif k == 'reconnect':
+                flags['expire'] = True
+                if proc.busy:
+                    flags['window'] = True      # from here on the history is outside C17's theorems
+                    run.tags.add('reconnect-in-flight')
+                else:
+                    run.tags.add('reconnect-idle')
+                cur['proc'] = None
+                server.expire(proc.client)
+                proc.client.reconnect()
+                emit('reconnect %d' % proc.idx)
             elif k == 'envput':
                 _, path, payload = op
                 if _is_leaf_presence_path(path) and path.startswith('/identity-groups/') and payload != '':
